@@ -150,12 +150,16 @@ class SmiV2Lexer(AbstractLexer):
         r'\r\n|\n|\r'
         t.lexer.lineno += 1
 
+    def t_exports_comment(self, t):
+        r'--[^\r\n]*'
+        pass
+
     def t_exports_end(self, t):
         r';'
         t.lexer.begin('INITIAL')
 
     def t_exports_body(self, t):
-        r'[^;]+'
+        r'(?:[^;-]|-(?!-))+'
         t.lexer.lineno += len(re.findall(r'\r\n|\n|\r', t.value))
 
     # Skipping CHOICE
